@@ -125,7 +125,7 @@ class Check:
 
     def coqc(self, path, timeout=600):
         """compile one file that lives in the build dir (logical root Run) -> (ok, output)"""
-        cmd = ["timeout", str(timeout), "coqc", "-Q", COQ, "LNML", "-Q", self.build, "Run", path]
+        cmd = ["timeout", str(timeout), "coqc", "-noglob", "-Q", COQ, "LNML", "-Q", self.build, "Run", path]
         try:
             p = subprocess.run(cmd, capture_output=True, text=True, cwd=self.build, timeout=timeout + 30)
             out = clean_out(p.stdout + "\n" + p.stderr)
